@@ -29,8 +29,10 @@ def stats_script(paths, out, precisions):
                     if not dy and any(q % 4 == 0 for q in qs):
                         continue   # exact multiples of a decimal precision are float-fragile: dyadic precisions only
                     o.write("R %s %d %d%s\n" % (kind, p["W"], pi, " setter" if n % 3 == 0 else ""))
+                    if kind == "var" and any(ev["e"] == "resize" and ev["W"] < 2 for ev in p["path"]):
+                        continue
                     for ev in p["path"]:
-                        o.write("U %d\n" % ev["q"] if ev["e"] == "update" else "Z\n")
+                        o.write("U %d\n" % ev["q"] if ev["e"] == "update" else "S %d\n" % ev["W"] if ev["e"] == "resize" else "Z\n")
                     o.write("X %s\n" % " ".join(map(str, MIXED if dy else ODD)))
                     n += 1
     return n
@@ -57,7 +59,7 @@ def run(tier, seed):
     # leg 1: model checking
     ws = {1, 2, 3, 4, 5} if quick else {1, 2, 3, 4, 5, 6}
     vlib.mc(rep, "MC_SlidingStats.tla", dict(Ws=ws, Samples="<- SamplesMixed", Extra=3), "mc_stats",
-            ["Refines", "VarNonNegative"], actions=["DoUpdate", "DoReset"])
+            ["Refines", "VarNonNegative"], actions=["DoUpdate", "DoReset", "DoResize"])
     vlib.mc(rep, "MC_Ring.tla", dict(Cs=set(range(1, 9 if quick else 17)), Extra=2), "mc_ring",
             ["Refines", "SizeIsMin", "MostRecentFirst"], actions=["DoAppend", "DoClear"])
     # leg 2: every reachable model state, every action, on the real objects
